@@ -742,7 +742,8 @@ def build_jobs(tier, sd, run):
     run.cov["field_cases"] = {"lattice": len(cases), "without_instance": uninst,
                               "all_keys": sorted(c11fields.case_key(c) for c in cases)}
     ncorp = 60 if quick else 600
-    for ci, e in enumerate(corpus.draw(ncorp, sd + 5)):
+    # + graph shapes (corpus_shapes.py); emphasis: tensors with two interface roles, several NPU subgraphs
+    for ci, e in enumerate(corpus.draw(ncorp, sd + 5) + corpus.shape_jobs(sd, tier, extra=["io_alias"] * 2 + ["islands"], thorough=15)):
         net = c11fields.dress_minmax(e["net"], random.Random(sd * 31 + ci)) if ci % 2 else e["net"]
         jobs.append({"id": len(jobs), "net": net, "opts": e["opts"]})
         meta.append({"family": e["family"], "opts": e["opts"]})
